@@ -10,7 +10,7 @@
 //     delaymode  d + 10*v ; d: 0 none, 1 random spin 0-50us, 2 heavy-tailed (1/12: 1-3 ms), 3 reverse-biased (early
 //                items slow), 4 sleep/yield based ; v: 0 items carried as std::size_t ids (id 0 is a null void* inside
 //                TBB), 1 items carried as pointers, 2 items carried as a non-trivial 32-byte value (library-allocated tokens; every token must be
-//                destroyed exactly once); the call is spelled (limit,chain) / (limit,chain,context) / variadic / variadic+context by seed % 4
+//                destroyed exactly once), 3 items carried as a trivially copyable class of pointer size whose item 0 is all-zero bytes; the call is spelled (limit,chain) / (limit,chain,context) / variadic / variadic+context by seed % 4
 // stdout per config:
 //   begin <modes> <limit> <items> <threads> <seed> <delaymode>
 //   ib <inv> | ie <inv> <item|-> | b <k> <item> | e <k> <item>      (global log order)
@@ -33,6 +33,7 @@
 #include <sstream>
 #include <string>
 #include <thread>
+#include <type_traits>
 #include <vector>
 #include <sched.h>
 #include <unistd.h>
@@ -149,6 +150,16 @@ template <> struct Rep<Big> {
     static Big make(Run&, std::size_t id) { return Big(id); }
     static Big none(Run&) { return Big(0); }
     static std::size_t id(const Big& v) { if (v.magic != Big::ALIVE) ++g_big_bad; return v.id; }
+};
+
+// a trivially copyable CLASS type no larger than a pointer: the filter wrappers overlay its bytes on the void* token; item 0 is all-zero bytes
+// (a legitimate item that looks like a null pointer: it must not be mistaken for end of input)
+struct Small { std::uint32_t id; std::uint16_t a, b; };
+static_assert(sizeof(Small) <= sizeof(void*) && std::is_trivially_copyable<Small>::value && !std::is_scalar<Small>::value, "Small token");
+template <> struct Rep<Small> {
+    static Small make(Run&, std::size_t id) { return Small{(std::uint32_t)id, 0, 0}; }
+    static Small none(Run&) { return Small{0, 0, 0}; }
+    static std::size_t id(Small v) { return v.id; }
 };
 
 // input body common part: returns true and sets id if an item was produced
@@ -281,7 +292,7 @@ void do_run(const char* line) {
     r.nf = r.modes.size();
     bool okm = r.nf >= 1;
     for (char c : r.modes) if (c != 'p' && c != 'i' && c != 'o') okm = false;
-    if (!okm || limit < 1 || threads < 1 || dm < 0 || dm % 10 > 4 || dm / 10 > 2) { std::puts("bad-op"); return; }
+    if (!okm || limit < 1 || threads < 1 || dm < 0 || dm % 10 > 4 || dm / 10 > 3) { std::puts("bad-op"); return; }
     r.limit = limit; r.items = items; r.threads = threads; r.seed = seed; r.dmode = dm % 10;
     bool ptr = dm / 10 == 1;
     r.inside = std::vector<std::atomic<int>>(r.nf);
@@ -312,7 +323,7 @@ void do_run(const char* line) {
     {
         tbb::global_control gc(tbb::global_control::max_allowed_parallelism, (std::size_t)threads);
         g_big_live = 0; g_big_bad = 0;
-        if (dm / 10 == 2) run_pipeline<Big>(r); else if (ptr) run_pipeline<Item*>(r); else run_pipeline<std::size_t>(r);
+        if (dm / 10 == 3) run_pipeline<Small>(r); else if (dm / 10 == 2) run_pipeline<Big>(r); else if (ptr) run_pipeline<Item*>(r); else run_pipeline<std::size_t>(r);
         {
             std::lock_guard<std::mutex> lk(wmu);
             finished = true;
